@@ -51,7 +51,7 @@ class PoolWorld(World):
             "Daemon.handleRequest, protocol, socketutil.receive_data/send_data, marshal serializer"]
     STUB = ["threading.Event/Lock (simulated, baton scheduler)", "time (virtual clock)",
             "sockets + selector (in-memory)", "Worker.__hash__ (index based)", "jobs (scripted durations)"]
-    PROBES = ["refused", "worker_retired", "worker_created", "close_with_running_jobs", "preempted",
+    PROBES = ["thread_start_failed", "wall_clock_stepped_back_during_close", "refused", "worker_retired", "worker_created", "close_with_running_jobs", "preempted",
               "server_layer", "refused_on_wire", "worker_reused", "close_races_submission", "submit_after_close_refused", "stalled", "silent_client", "job_raised", "closed_during_housekeeper_round"]
     RULE = ("plan = (layer, THREADPOOL_SIZE, THREADPOOL_SIZE_MIN, per job: duration and gap before the next "
             "submission, optional close time, pre-emption probabilities); distinct = distinct interleaving digest "
@@ -100,9 +100,25 @@ class PoolWorld(World):
         p_stall = rng.choice([0.0, 0.0, 0.01, 0.03]) if layer == "pool" else rng.choice([0.0, 0.0, 0.0, 0.01])
         if close and "during" in close:
             p_stall = rng.choice([0.02, 0.05, 0.1])
-        return {"layer": layer, "size": size, "min": mn, "jobs": jobs, "close": close, "p_stall": p_stall, "commtimeout": commt,
+        plan = {"layer": layer, "size": size, "min": mn, "jobs": jobs, "close": close, "p_stall": p_stall, "commtimeout": commt,
                 "p_line": rng.choice([0.0, 0.02, 0.05, 0.1, 0.2, 0.3]),
                 "p_block": rng.choice([0.0, 0.3, 0.6, 1.0])}
+        if layer == "pool" and close is not None and "during" not in close and rng.random() < 0.1:
+            # the wall clock is stepped back an hour (NTP, an operator) while close() waits for two workers that are busy with
+            # long jobs: close() must still return promptly (time.time() is not a clock to compute waiting times with)
+            plan["size"] = size = max(size, 2)
+            for j in jobs[:2]:
+                j["dur"], j["gap"], j["raises"] = 150.0, 0, False
+            t_close = sum(j["gap"] for j in jobs) + close["after"]
+            plan["clock_jumps"] = [[round(t_close + rng.choice([0.05, 0.15, 0.25, 0.45]), 4), -3600.0]]
+            plan["p_stall"] = 0.0
+        if layer == "server" and rng.random() < 0.15:
+            # a listener of the unix-domain kind: the address of an accepted connection is '' (no host, no port)
+            plan["net"] = {"unix_addr": True}
+        if layer == "pool" and rng.random() < 0.08:
+            # the operating system refuses to start one of the worker threads the pool wants while it grows
+            plan["start_fail"] = [mn + rng.randint(1, max(1, size - mn))]
+        return plan
 
     def line_codes(self, plan):
         return _server_codes() if plan["layer"] == "server" else _codes()
@@ -184,7 +200,18 @@ class PoolWorld(World):
     # ------------------------------------------------------------------
     def _pool_layer(self, ctx, st, workers, check_bound):
         plan, sched = ctx.plan, ctx.sched
-        pool = ST.Pool()
+        if plan.get("start_fail"):
+            # fault: the k-th attempt to start a worker thread fails (the OS refuses another thread); counted from the first
+            # worker the pool creates
+            sched.start_counts = {}
+            sched.start_fail = {"Worker": [int(k) for k in plan["start_fail"]]}
+        try:
+            pool = ST.Pool()
+        except RuntimeError:
+            if plan.get("start_fail"):
+                ctx.probe("thread_start_failed")
+                return      # the pool could not even be created: nothing to judge
+            raise
         ran = {}
         running = [0]
         maxrun = [0]
@@ -218,6 +245,9 @@ class PoolWorld(World):
 
         def closer():
             closing["called_now"] = sched.now
+            if plan.get("clock_jumps"):
+                ctx.probe("wall_clock_stepped_back_during_close")
+                ctx.fault("wall_clock_step")
             if running[0]:
                 ctx.probe("close_with_running_jobs")
             pool.close()
@@ -250,6 +280,16 @@ class PoolWorld(World):
                     ctx.violate("submit-raised", "PoolError", "job %d: %r although close() was never called" % (i, x))
                 else:
                     ctx.probe("submit_after_close_refused")
+            except RuntimeError as x:
+                st["in_service"] -= 1
+                if plan.get("start_fail") and "start new thread" in str(x):
+                    # the submitter was told: a refusal (the pool must go on working with the workers it has)
+                    status[i] = "refused"
+                    ctx.probe("thread_start_failed")
+                    ctx.fault("thread_start_failed")
+                else:
+                    status[i] = "error"
+                    ctx.violate("submit-raised", type(x).__name__, "job %d: %r" % (i, x))
             except Exception as x:  # noqa
                 st["in_service"] -= 1
                 status[i] = "error"
